@@ -8,6 +8,21 @@ BASELINE = ("cd /repo && /venv/bin/python -m pytest -ra -q -p no:cacheprovider -
 
 # id -> (engine spec modules, technique, level text, level note, design ref)
 CLAIMED = {
+ "C03": ("spec/stream/StreamHist.tla + StreamHistC03.tla + trace/StreamHistTrace.tla",
+         "TLC exhaustive enumeration of method histories on a pull-machine model of Stream/tee/StreamTeeHub checked "
+         "against an immutable list model (history-as-state) + replay of every enumerated history on real Stream "
+         "objects + TLC trace validation of long recorded histories",
+         "The specification has the machine the code builds from itertools (tee groups with shared buffers, lazy "
+         "skipper/limit/map/filter/chain nodes, in-place _data replacement, StreamTeeHub copies) and the list model "
+         "the property states; TLC checks on every history up to the bound that each return value/exception agrees "
+         "and that every live handle still unfolds to its list whatever was consumed through its copies. All "
+         "~10^5 enumerated histories (every count token at depth 2, representative counts at depth 3, core methods at "
+         "depth 4 in the thorough tier) are replayed on real objects and compared; random histories of 30-40 calls "
+         "over 7 handles and sequences of up to 20 items are validated by TLC.",
+         "History length <= 3 (quick) / 4 (thorough) exhaustively, 30-40 randomly; take(inf) on endless streams, "
+         "never-passing filters on endless streams and exact-tie float counts are excluded; a stream handed to "
+         "append/tee/thub is dead afterwards (documented). Trusted: TLC, the dump parser, the 100-line replay shim.",
+         "DESIGN.md section 4 C03"),
  "C04": ("spec/dsp/Filter.tla + FilterC04.tla + trace/FilterTrace.tla",
          "TLC exhaustive check that the generated-code register machine equals the difference equation on "
          "linear-form samples + replay of every TLC state into the real filter through every construction and "
@@ -21,6 +36,24 @@ CLAIMED = {
          "length <= 4 exhaustively, <= 24 randomly; memories of sufficient length. Trusted: TLC, LinForm "
          "(40 lines of Fraction arithmetic), the dump parser.",
          "DESIGN.md section 4 C04"),
+ "C17": ("spec/io/AudioIO.tla (PlusCal) + trace/AudioIOTrace.tla + harness/sched.py",
+         "TLC model checking of a PlusCal model of AudioIO/AudioThread over all interleavings (safety invariants + "
+         "liveness of close under weak fairness) + deterministic scheduler that forces the real lazy_io (unmodified, "
+         "over shim threading and a fake PyAudio backend) along TLC-generated behaviours + TLC trace validation of "
+         "randomly/PCT-scheduled real executions",
+         "Every interleaving of the caller (bounded control history over play/pause/resume/stop, then close, then a "
+         "play that must raise) and 2 players x 2 chunks at the grain of single shared-state accesses is explored by "
+         "TLC: chunks in order exactly once, no write to a stream that is not open, all streams closed, terminate "
+         "once, no thread alive after close, close always returns (liveness, weak fairness). The same module's "
+         "coarse relation (pre-emption at synchronisation/backend operations) is turned into an edge cover of "
+         "maximal behaviours that the real code is driven along, thread by thread, with the shared state compared "
+         "after every operation; random and PCT schedules with random control histories for 1-3 players are logged "
+         "and validated by TLC, and direct monitors check the bytes received per device stream.",
+         "Pre-emption only at lock/event/thread/backend operations (the deterministic scheduler is the OS); default "
+         "float sample format; with wait=True close is not called while a player is paused and never resumed; "
+         "bounds: 2 players x <=2 chunks x 3 control calls exhaustively, 1-3 players x <=3 chunks x 5 calls randomly. "
+         "Trusted: TLC, pcal, harness/sched.py.",
+         "DESIGN.md section 4 C17 and appendix A"),
  "C15": ("spec/core/MultiKeyDict.tla + StrategyDict.tla + trace/MultiKeyDictTrace.tla",
          "TLC full reachable state graph (refinement of the three-map machine to the key->value-with-recency "
          "definition) + transition-cover replay into the real objects + TLC trace validation of recorded histories",
